@@ -213,6 +213,21 @@ PROPS = {
         "trusted_base": COMMON_TB,
         "assumptions": ["transaction values below 2^64 (hypotheses hsum/hlt of the FIFO theorems)"],
     },
+    "C18": {
+        "manifest": {
+            "text": "PARTIAL by nature (the Go memory model, the scheduler and sync.RWMutex are outside any executable model). Proved in Lean 4, for any number of threads, any guarded programs and every schedule: guarded_programs_race_free (no reachable state has two threads about to perform conflicting accesses), reads_return_initial_or_written, writer_excludes_readers; frames_independent (tasks owning their frame compute their sequential result under every interleaving). Tied to the code on every run by a go/ast extractor: for EVERY method of FeeQuote/FeeQuotes the ordered lock operations, field accesses and lock-taking calls (Gen/Locks.lean) must satisfy the discipline (fee_methods_guarded, fee_methods_lock_order, decide +kernel), and interpreter.engine must have no fields and no package-level variable may be written outside init (engine_stateless, Gen/Shared.lean). Search on the implementation: every unordered pair of methods (incl. JSON (un)marshalling, expiry, Quote) and Engine.Execute on distinct transactions run in child processes under the race detector with value tagging (every read must return the initial value or a value some write stored; concurrent verdicts must equal sequential ones).",
+            "note": "Not modelled: data reachable through returned pointers (*Fee, *FeeQuote contents handed to callers), races inside callees (encoding/json, math/big, go-bk), Go's runtime. The race-detector runs are a search aid (they produce the replay), not a proof. Trusted: Lean kernel + standard axioms, the extractor (extract/locks.go), harness/generators/comparer, driver glue.",
+            "technique": "Lean 4 proof of a reader/writer-lock discipline model and a frame-independence model + regenerated lock/field-access facts with decide obligations + race-detector search harness",
+        },
+        "generators": ["C18"],
+        "race_harness": True,
+        "thorough_seeds": 2,
+        "gen_obligations": ["fee_methods_guarded", "fee_methods_lock_order", "fee_methods_guarded_other_ids", "engine_stateless"],
+        "rule": "quick: all 28 FeeQuote method pairs + 15 FeeQuotes pairs + engine, 4 goroutines x GOMAXPROCS 4, 300 calls each; thorough: 6 (goroutines, GOMAXPROCS) configurations from (2,1) to (32,4), 2 seeds. Non-trivial = scenario ran to completion with reads checked.",
+        "nontrivial": lambda op, impl: impl.startswith("ok reads=") and not impl.endswith("=0"),
+        "trusted_base": COMMON_TB + ["fact extractor /verif/extract/locks.go (go/ast + go/types walk of fees.go method bodies)", "Go race detector (search only)"],
+        "assumptions": ["sync.RWMutex implements reader/writer exclusion", "Go memory model: race-free programs are sequentially consistent"],
+    },
     "C05": {
         "manifest": {
             "text": "A complete executable Lean model of the interpreter (apply/Step/executeOpcode/CheckErrorCondition, all ~110 non-signature handlers, script numbers, both eras, P2SH re-entry, policy flags; structural recursion over the parsed opcodes) is compared on every run, program by program, with the real interpreter through a recording Debugger: verdict plus the data, alt and conditional stacks, op count, early-return flag and last-code-separator index after every executed instruction. Lean theorems: the regenerated opcode dispatch table, per-era limits and flag bits are the ones the model is written against (kernel-evaluated on every run), OP_RETURN decision logic per era, disabled/reserved opcode rules, element-size rule, combined-stack-depth invariant over every recorded state, minimal-number-encoding characterisation.",
